@@ -876,7 +876,9 @@ fn fam_fifo<T: Payload>(c: &Case, cx: &mut Ctx) -> Outcome {
     fill(&mut sc);
     let n = 2 + (c.a % 3) as usize; // blocked senders
     let mid = 1 + (c.b as usize % (n - 1)).min(n - 2).max(0);
-    let cancel_kind = c.c % 3; // 0 send_timeout expiring, 1 send_option_timeout expiring, 2 send future dropped
+    // 0 send_timeout expiring, 1 send_option_timeout expiring, 2 send future dropped (under Miri only the last:
+    // a real-time deadline long enough for Miri to build the state would dominate the run)
+    let cancel_kind = if cfg!(miri) { 2 } else { c.c % 3 };
     let kinds = ws_kinds();
     let mut ws = vec![];
     let mut reg = 0;
